@@ -69,6 +69,12 @@ pub fn register(name: &str, r: Box<dyn TilesReaderTrait>) {
 	let mut g = REGISTRY.lock().unwrap();
 	g.get_or_insert_with(HashMap::new).insert(name.to_string(), r);
 }
+/// sources whose opening (the factory's reader callback) suspends `n` times before it answers
+pub static OPEN_YIELDS: Mutex<Option<HashMap<String, usize>>> = Mutex::new(None);
+pub fn register_slow_open(name: &str, r: Box<dyn TilesReaderTrait>, n: usize) {
+	register(name, r);
+	OPEN_YIELDS.lock().unwrap().get_or_insert_with(HashMap::new).insert(name.to_string(), n);
+}
 pub fn take(name: &str) -> Option<Box<dyn TilesReaderTrait>> {
 	let mut g = REGISTRY.lock().unwrap();
 	g.get_or_insert_with(HashMap::new).remove(name)
@@ -82,6 +88,8 @@ pub fn factory() -> versatiles_pipeline::PipelineFactory {
 		Box::pin(async move {
 			let key = filename.rsplit('/').next().unwrap_or(&filename).to_string();
 			if let Some(r) = take(&key) {
+				let n = OPEN_YIELDS.lock().unwrap().get_or_insert_with(HashMap::new).remove(&key).unwrap_or(0);
+				for _ in 0..n { YieldOnce(false).await; }
 				Ok(r)
 			} else {
 				versatiles_container::get_reader(&filename).await
